@@ -59,8 +59,12 @@ class Dispatcher(InstructionGenerator):
                     return False
                 elif (
                     membership_id is not None
-                    and not vehicle.membership.grant_access_to_membership_id(membership_id)
+                    and membership_id not in vehicle.membership.memberships
+                    and not (vehicle.membership.public and only_public_requests)
                 ):
+                    # only members of this fleet can serve its requests; a vehicle without any
+                    # membership is refused by every request that belongs to a fleet, so it
+                    # only takes part when all of the candidate requests are public
                     return False
 
                 mechatronics = environment.mechatronics.get(vehicle.mechatronics_id)
@@ -91,13 +95,14 @@ class Dispatcher(InstructionGenerator):
                 return not_already_dispatched and valid_access
 
             # collect the vehicles and requests for the assignment algorithm
-            available_vehicles = simulation_state.get_vehicles(
-                filter_function=_is_valid_for_dispatch,
-            )
-
             unassigned_requests = simulation_state.get_requests(
                 sort_key=lambda r: (-r.value, r.id),
                 filter_function=_valid_request,
+            )
+            only_public_requests = all(r.membership.public for r in unassigned_requests)
+
+            available_vehicles = simulation_state.get_vehicles(
+                filter_function=_is_valid_for_dispatch,
             )
 
             # select assignment of vehicles to requests
